@@ -1,5 +1,6 @@
 import TonicModel.Lemmas.FramingWire
 import TonicModel.Lemmas.FramingDecLimit
+import TonicModel.Lemmas.FramingOps
 /-
 C07 — Hostile or truncated input ends a stream with one error, never a hang or panic.
 All theorems quantify over *arbitrary* event lists: any bytes in any chunking, `Pending`s,
@@ -147,6 +148,108 @@ example :
       held (recvOf ffCodec cfg) (dataOf evs) = [1, 2] := by
   simp [PlainEvs, dataOf, batch_cons5, held_cons5, header, recvOf, batchBody, heldBody, Spec.Framing.payload,
     ffCodec, be32, DecCfg.limit, defaultMaxRecv]
+
+/-! ### Consumers that use `Streaming::message()` and `Streaming::trailers()` (audit aC07)
+
+The property speaks of "a caller that drains it".  tonic's own draining callers (`Grpc::unary`,
+`client_streaming`, `map_request_unary`) and most user code do not call `poll_next` directly: they
+call `message()` and `trailers()`.  `Dec.runOps` is a consumer making any sequence of these calls
+on the one stream. -/
+
+/-- **`message()` is `poll_next`.**  A consumer that never calls `trailers()` — any mixture of
+`poll_next` and polls of `message()` futures, each dropped after one poll — sees exactly the
+results of that many `poll_next` calls, so every theorem above is about it too. -/
+theorem C07_message_is_poll_next (cd : Codec α) (cfg : DecCfg) (fuel : Nat) (ops : List Op) (evs : List BodyEv)
+    (h : ∀ op ∈ ops, op.isPoll = true) :
+    Dec.runOps cd cfg fuel ops Dec.init evs = (Dec.run cd cfg ops.length Dec.init evs).map .item :=
+  runOps_polls cd cfg fuel ops Dec.init evs h
+
+/-- **Every state a consumer can reach is a good one** (a `ReadBody` state remembers identity or
+the negotiated encoding): the invariant the next three theorems are stated over holds initially
+and after every call, `trailers()` included. -/
+theorem C07_consumer_states_ok (cd : Codec α) (cfg : DecCfg) (fuel : Nat) (s : DecSt) (evs : List BodyEv) (op : Op) :
+    StateOk cfg Dec.init ∧ (StateOk cfg s → StateOk cfg (Dec.stepOp (α := α) cd cfg fuel s evs op).1) :=
+  ⟨by intro len comp h; simp [Dec.init] at h, fun hs => (stepOp_stateOk cd cfg fuel s evs op hs).1⟩
+
+/-- **`trailers()` always returns.**  From every reachable state its drain loop
+(`while self.message().await?.is_some() {}`) ends within `#events + #messages + 1` polls — for any
+bytes, any chunking, any `Pending`s, body errors and trailers still to come. -/
+theorem C07_trailers_call_terminates (cd : Codec α) (cfg : DecCfg) (fuel : Nat) (s : DecSt) (evs : List BodyEv)
+    (hs : StateOk cfg s) (hn : evs.length + (specFrom cd cfg s (accepted cfg evs)).1.length < fuel) :
+    (Dec.trailersCall cd cfg fuel s evs).2.2 ≠ .fuel := by
+  unfold Dec.trailersCall
+  cases s.trailers with
+  | some t => simp
+  | none =>
+    have := drain_terminates cd cfg fuel s evs 0 hs hn
+    cases hd : Dec.drain cd cfg fuel s evs 0 with
+    | none => simp [hd] at this
+    | some q =>
+      obtain ⟨s', evs', k, r⟩ := q
+      cases r <;> simp
+
+/-- **`trailers()` reports the stream's own end — no error swallowed, none invented.**  When no
+trailers are cached, what `trailers()` returns is decided by the first terminal result `poll_next`
+would have given: `Err(e)` exactly when that is the error `e` (which is thereby consumed), `Ok`
+exactly when it is the end of the stream; before it only messages and `Pending`s went by. -/
+theorem C07_trailers_reports_the_streams_end (cd : Codec α) (cfg : DecCfg) (fuel : Nat) (s : DecSt) (evs : List BodyEv)
+    (ht : s.trailers = none) (hfuel : (Dec.trailersCall cd cfg fuel s evs).2.2 ≠ .fuel) :
+    ∃ j pre, j ≤ fuel ∧ (∀ o ∈ pre, o.isTerminal = false) ∧
+      ((∃ e, (Dec.trailersCall cd cfg fuel s evs).2.2 = .err (pendingsOf pre) e ∧
+            Dec.run cd cfg j s evs = pre ++ [.err e]) ∨
+       (∃ t, (Dec.trailersCall cd cfg fuel s evs).2.2 = .ok (pendingsOf pre) t ∧
+            Dec.run cd cfg j s evs = pre ++ [.none])) := by
+  unfold Dec.trailersCall at hfuel ⊢
+  simp only [ht] at hfuel ⊢
+  cases hd : Dec.drain cd cfg fuel s evs 0 with
+  | none => simp [hd] at hfuel
+  | some q =>
+    obtain ⟨s', evs', k, r⟩ := q
+    obtain ⟨j, pre, hj, hrun, hpre, hk⟩ := drain_spec cd cfg fuel s evs 0 s' evs' k r hd
+    refine ⟨j, pre, hj, hpre, ?_⟩
+    cases r with
+    | some e => left; exact ⟨e, by simp [hk], by simpa [endItem] using hrun⟩
+    | none => right; exact ⟨s'.trailers, by simp [hk], by simpa [endItem] using hrun⟩
+
+/-- **The first error is final for every consumer.**  Whichever call returns the stream's error —
+`poll_next`, `message()`, or `trailers()` — every later call is answered quietly: `None` to a
+poll, and `trailers()` returns `Ok` at once without touching the body. -/
+theorem C07_first_error_final_any_consumer (cd : Codec α) (cfg : DecCfg) (fuel : Nat) (hf : 0 < fuel)
+    (ops : List Op) (evs : List BodyEv) (pre post : List (OpOut α)) (o : OpOut α)
+    (h : Dec.runOps cd cfg fuel ops Dec.init evs = pre ++ o :: post) (he : o.isErr = true) :
+    ∀ x ∈ post, x.isQuiet = true :=
+  runOps_first_error_final cd cfg fuel hf ops Dec.init evs pre post o
+    (by intro len comp h; simp [Dec.init] at h) h he
+
+/-- **tonic's own draining callers are consumers of this kind.**  `client::Grpc::unary` /
+`client_streaming` and `server::Grpc::unary` (`map_request_unary`) do `try_next().await` and then
+`trailers().await?` on the stream they have just built.  Whatever such a call returns is read off
+the consumer `message()ʲ⁺¹ ; trailers()`: a message only if it is the stream's first result (hence,
+by `C07_messages_are_valid_prefix`, the first valid message of the input) and the drain after it
+met no error; the stream's own error otherwise — from the first result or from the drain; and
+"missing message" exactly when the stream ends before any message.  So the theorems above (valid
+prefix, first error final, `trailers()` terminates and reports the stream's own end) are about
+these calls too. -/
+theorem C07_unary_call_is_a_consumer (cd : Codec α) (cfg : DecCfg) (fuel : Nat) (evs : List BodyEv)
+    (h : Dec.unaryCall cd cfg fuel Dec.init evs ≠ .fuel) :
+    ∃ j o x, Dec.runOps cd cfg fuel (List.replicate (j + 1) .message ++ [.trailers]) Dec.init evs
+        = List.replicate j (.item .pending) ++ [.item o, x] ∧
+      UnaryView (Dec.unaryCall cd cfg fuel Dec.init evs) j o x :=
+  unaryCall_view cd cfg fuel Dec.init evs h
+
+example : Dec.unaryCall idCodec { enc := none, maxSize := none, dir := .response 200 } 9 Dec.init
+      [.pending, .data [0, 0, 0, 0, 1, 9], .pending, .data [0, 0, 0, 0, 5, 1]] = .err 2 ⟨13, .eof⟩ := by decide
+
+/- Non-vacuity: `trailers()` called mid-stream consumes the stream's error (a bad flag after one
+message), after which a poll yields `None` and a second `trailers()` returns `Ok(None)` at once;
+and a `trailers()` that drains past a message to OK trailers. -/
+example : Dec.runOps idCodec { enc := none, maxSize := none, dir := .request } 9 [.trailers, .next, .trailers] Dec.init
+      [.data [0, 0, 0, 0, 1, 9], .pending, .data [7, 0, 0, 0, 0]]
+    = [.tr (.err 1 ⟨13, .badFlag⟩), .item .none, .tr (.ok 0 none)] := by decide
+
+example : Dec.runOps idCodec { enc := none, maxSize := none, dir := .response 200 } 9 [.message, .trailers, .trailers] Dec.init
+      [.data [0, 0, 0, 0, 1, 9, 0, 0, 0, 0, 1, 8], .trailers (some 0)]
+    = [.item (.msg [9]), .tr (.ok 0 (some (some 0))), .tr (.ok 0 none)] := by decide
 
 /- the scope hypothesis `skipsBody = false` holds for every request and every 200 response -/
 example : ({ enc := none, maxSize := none, dir := .request } : DecCfg).skipsBody = false := by decide
